@@ -34,6 +34,19 @@ func lastWins(flags []string, name string, valued map[string]bool) (val string, 
 	return
 }
 
+// importCfgFile is the importcfg handed to transformLink: under the engine
+// processImportCfg is stubbed; natively a real (empty) file is provided and the
+// real function rewrites it into garble's temp dir.
+func importCfgFile() string {
+	if symx.Symbolic() {
+		return "/tmp/b001/importcfg.link"
+	}
+	root := symx.FSRoot()
+	sharedTempDir = root
+	symx.FSWriteFile(root+"/importcfg.link", "# import config\n")
+	return root + "/importcfg.link"
+}
+
 var linkValued = map[string]bool{"-o": true, "-importcfg": true, "-buildid": true, "-X": true, "-extld": true, "-buildmode": true, "-installsuffix": true}
 
 // upperText is text that cannot occur in the other (lower-case) arguments.
@@ -63,13 +76,15 @@ func H_C02_link_flags() {
 	sharedCache = &sharedCacheType{ListedPackages: newListedPackages()}
 	flagSeed = seedFlag{bytes: []byte("12345678")}
 	tf := &transformer{curPkg: &listedPackage{Name: "main", ImportPath: "example.com/cmd", ToObfuscate: true}}
+	defer symx.FSCleanup()
+	origCfg := importCfgFile()
 	var args []string
 	args = append(args, "-o", "/tmp/out/"+shortText("out", 1))
 	switch symx.Choose(2) {
 	case 0:
-		args = append(args, "-importcfg", "/tmp/b001/importcfg.link")
+		args = append(args, "-importcfg", origCfg)
 	case 1:
-		args = append(args, "-importcfg=/tmp/b001/importcfg.link")
+		args = append(args, "-importcfg="+origCfg)
 	}
 	bid := upperText("bid", 1+symx.Choose(2)) + "/" + upperText("bid2", 1)
 	switch symx.Choose(3) {
@@ -96,7 +111,7 @@ func H_C02_link_flags() {
 	_, s := lastWins(flags, "-s", linkValued)
 	symx.Assert(w && s, "-w and -s are passed")
 	cfg, ok := lastWins(flags, "-importcfg", linkValued)
-	symx.Assert(ok && cfg == "/tmp/garble-importcfg", "the linker reads the rewritten importcfg")
+	symx.Assert(ok && cfg != "" && cfg != origCfg, "the linker reads the rewritten importcfg")
 	foundBV := false
 	for i, a := range flags {
 		if a == "-X=runtime.buildVersion=unknown" {
@@ -185,7 +200,8 @@ func H_C01_ldflags_X() {
 	} else {
 		args = []string{"-X=" + x}
 	}
-	args = append(args, "-importcfg", "/tmp/cfg", "/tmp/b001/_pkg_.a")
+	defer symx.FSCleanup()
+	args = append(args, "-importcfg", importCfgFile(), "/tmp/b001/_pkg_.a")
 	out, err := tf.transformLink(args)
 	symx.Reach("linked")
 	symx.Assert(err == nil, "no error")
